@@ -242,10 +242,29 @@ def relayCase (scen csS ssS exS : String) (impl : List String) : String :=
     s!"{if agree then "A" else "D"} {if spec then "S" else "V"} {m1} {m2}"
   | _, _, _, _ => "E E bad-relay-case"
 
+/-! ### frames built locally: `boltlocal <bolt|boltv2> <trigger|reply|hijack> <id> <status> => ok <hex> | err -` -/
+def boltLocalCase (codec what idS stS : String) (impl : List String) : String :=
+  match idS.toNat?, stS.toNat?, impl with
+  | some id, some st, [enc, outS] =>
+    let v2 := codec == "boltv2"
+    let f := if what == "trigger" then trigger v2 id else if what == "reply" then reply v2 id else setId (hijack v2 st) id
+    match encode f, unhex outS with
+    | some mout, some out =>
+      let agree := enc == "ok" && mout == out
+      -- reference: the output parses back (with either codec) to the frame's fixed fields, no class / header / body
+      let spec := enc == "ok" &&
+        (match Ref.parse v2 out with
+         | some (g, n) => n == out.length && Ref.sameContent g f && Ref.lengthsConsistent g
+         | none => false)
+      s!"{if agree then "A" else "D"} {if spec then "S" else "V"} ok {hex mout}"
+    | _, _ => "D V model-refuses"
+  | _, _, _ => "E E bad-local-case"
+
 def run (caseToks impl : List String) : String :=
   match caseToks with
   | ["bolt", id, ops, inp] => boltCase false id ops inp impl
   | ["boltv2", id, ops, inp] => boltCase true id ops inp impl
+  | ["boltlocal", codec, what, id, st] => boltLocalCase codec what id st impl
   | ["dubbo", id, ops, ok, inp] => dubboCase id ops ok inp impl
   | ["thrift", id, ops, ok, inp] => thriftCase id ops ok inp impl
   | ["tars", kind, id, ops, valid, fields, inp] => tarsCase kind id ops valid fields inp impl
